@@ -343,6 +343,8 @@ def models(chk: Check):
                 f" ModelTaskBound = 3\n MaxRuns = 2\nINVARIANT NoContractViolation\nINVARIANT BoundedTasks\nINVARIANT AllClosed\nINVARIANT NoOrphan\n"
                 "CHECK_DEADLOCK FALSE\n")
     chk.model("conn", "ConnMgrTasks", path, workers=16, coverage=quick, timeout=2400, xmx="12g")
+    chk.sensitivity("conn", "ConnMgrTasks", "CONSTANTS\n Fixed = FALSE\n MaxAtt = 3\n Horizon = 12\n SlowLat = 2\n MaxDelay = 4\n BrkThr = 3\n BrkSleep = 3\n"
+                    " ModelTaskBound = 3\n MaxRuns = 2\n", "NoContractViolation", what="F8: tasks left pending / transport left open after close() (pinned tree)")
     chk.witnesses("conn", "ConnMgrTasks", "CONSTANTS\n Fixed = TRUE\n MaxAtt = 3\n Horizon = 12\n SlowLat = 2\n MaxDelay = 4\n BrkThr = 3\n BrkSleep = 3\n"
                   " ModelTaskBound = 3\n MaxRuns = 2\n", ["W_ReconnectedAfterLoss", "W_CloseDuringAttempt", "W_CloseDuringBackOff", "W_BreakerTripped",
                                                           "W_BackOffDoubled", "W_SecondRunConnected", "W_ReturnedWithAllClosed"])
